@@ -312,7 +312,12 @@ impl Renderer {
                 let x = self.fresh(ctx, &[&node.kids[1]]);
                 let (c2, t2) = push(ctx, tys, &x, &t["a"]);
                 let b = self.term(&node.kids[1], &c2, &t2);
-                wrap(format!("let {x} : {} = {v} in {b}", ty(&t["a"])), &t["c"])
+                // lean: a bindee that synthesises its type needs no annotation on the binder
+                if !self.full() && Self::synth(&node.kids[0]) {
+                    wrap(format!("let {x} = {v} in {b}"), &t["c"])
+                } else {
+                    wrap(format!("let {x} : {} = {v} in {b}", ty(&t["a"])), &t["c"])
+                }
             }
             | "vlet" => {
                 let v = self.term(&node.kids[0], ctx, tys);
@@ -672,7 +677,9 @@ pub fn replay_core(cases_path: &str, out_path: &str, modes: &[(Ann, Naming)], sa
             let mut sample = None;
             for (mi, (ann, naming)) in modes.iter().enumerate() {
                 // lean rendering is only meaningful for well-typed programs (see DESIGN.md C03)
-                if *ann == Ann::Lean && verdict != "accept" {
+                // (a scenario whose faults stay definite errors without annotations asks for them explicitly: ZYCORE_LEAN_FAULTS)
+                // ZYCORE_LEAN_FAULTS lists the model's rejection reasons that need no annotation to be errors (arms that disagree)
+                if *ann == Ann::Lean && verdict != "accept" && !std::env::var("ZYCORE_LEAN_FAULTS").is_ok_and(|l| l.split(',').any(|w| w == verdict)) {
                     continue;
                 }
                 let mode = format!("{ann:?}/{naming:?}");
